@@ -161,7 +161,7 @@ func TestC18(t *testing.T) {
 		cidrs []string
 		addrs []string
 	}
-	bad := []string{"X4", "X16", "X6", "L0", "L3", "L5", "L15", "L17"}
+	bad := []string{"X4", "X16", "X6", "NIL", "L0", "L3", "L5", "L15", "L17"}
 	cfgs := []cfg{
 		{"v4only", []string{"10.0.0.0/8"}, append([]string{"A", "A16", "B", "V6ok"}, bad...)},
 		{"v4+v6", []string{"10.0.0.0/8", "fd00::/8"}, append([]string{"A", "A16", "V6ok"}, bad...)},
